@@ -251,3 +251,9 @@ def run(ctx, repo):
     ctx.note('first-match classifier chains analysed', n_chains)
     ctx.note('.search call sites', n_search)
     ctx.floor('first-match classifier chains', n_chains, 4)
+
+    if ctx.tier == 'thorough':
+        from ..xval import cross_validate
+        n = cross_validate(P, sorted(P.patterns), ctx)
+        ctx.assume('thorough: the automata agree with re.match on %d strings derived from the automata themselves '
+                   '(validates the trusted base, not the property)' % n)
